@@ -39,6 +39,10 @@ CHECKS["C18"] = ("§5 C18", "Inductive step of the real BoundedAttributes (one o
     "values against the value limit, 5 capacities, frozen/not) against a reference model - covers operation histories of any length over the modelled key set; value "
     "cleaning over 17 value shapes with symbolic elements; construction/eviction; Resource.merge chains (precedence, schema rule, operands unchanged); Resource.create + "
     "detector + Deep.start plugin merge under a controlled environment, and the resource carried by the real PollRequest.")
+CHECKS["C19"] = ("§5 C19", "The real ConfigService lookup chain over 6 keys x 6 code-value kinds x environment presence (deep.config re-executed against a fake "
+    "environment); application-frame classification and short path over FREE symbolic file names and include/exclude prefixes against a reference (exclusion wins, prefix "
+    "semantics); code-vs-environment equivalence of every documented key observed through the real consumers (LongPoll timer construction, GRPCService channel choice, "
+    "is_app_frame, AuthProvider, deep.start).")
 PENDING = {}
 
 def main():
